@@ -128,6 +128,7 @@ def run_tlc(module, cfg, workdir, env=None, workers=1, heap="3g", timeout=3600,
     """Run TLC on spec/<module>.tla with spec/<cfg>.  Returns TLCResult."""
     os.makedirs(workdir, exist_ok=True)
     cmd = ["java", "-XX:+UseSerialGC" if workers == 1 else "-XX:+UseParallelGC", "-Xmx" + heap, "-Xss64m",
+           "-Djava.io.tmpdir=" + workdir,         # SANY unpacks the standard modules there: nothing is left under /tmp
            "-cp", JAR, "tlc2.TLC",
            "-workers", str(workers), "-metadir", os.path.join(workdir, "meta"),
            "-noGenerateSpecTE", "-config", os.path.join(SPEC, cfg)]
@@ -201,7 +202,7 @@ def run_apalache(apa, workdir):
            "--out-dir=" + os.path.join(workdir, "out"), os.path.join(SPEC, apa.module + ".tla")]
     try:
         p = subprocess.run(cmd, cwd=workdir, stdout=subprocess.PIPE, stderr=subprocess.STDOUT, timeout=apa.timeout,
-                           env=dict(os.environ, JVM_ARGS="-Xmx3g"))
+                           env=dict(os.environ, JVM_ARGS="-Xmx3g -Djava.io.tmpdir=" + workdir))
         res.out = p.stdout.decode("utf-8", "replace")
         res.rc = p.returncode
         if "The outcome is: NoError" in res.out and p.returncode == 0:
